@@ -6,6 +6,9 @@ package hpipe
 
 import (
 	"context"
+
+	"github.com/ozontech/file.d/pipeline/antispam"
+	"github.com/ozontech/file.d/pipeline/doif"
 	"errors"
 	"fmt"
 	"sort"
@@ -50,6 +53,10 @@ type Scn struct {
 	Bound        int
 	Horizon      time.Duration
 	Props        string // which properties this scenario serves (for selection)
+	// antispam through the started pipeline (its own maintenance goroutine): common threshold (-1 = off) and, when
+	// AntispamRule > 0, one rule for every source whose name starts with "file" with that threshold; maintenance every second
+	Antispam     int
+	AntispamRule int
 }
 
 // ---- observations ------------------------------------------------------------------
@@ -88,6 +95,7 @@ type Obs struct {
 	dqCalls     int
 	errCalls    int
 	findings    []vexplore.Finding
+	timed       []vexplore.Finding // findings that count on timed-fair executions only
 	readersDone int
 	accepted    int
 	ended       int
@@ -483,6 +491,19 @@ func Body(sc *Scn) {
 		AvgEventSize: 128, MaxEventSize: sc.MaxEventSize, StreamField: "stream", Pool: sc.Pool,
 		Metric: &pipeline.MetricSettings{HoldDuration: time.Hour},
 	}
+	if sc.Antispam != 0 || sc.AntispamRule > 0 {
+		settings.Antispam = pipeline.AntispamSettings{Threshold: sc.Antispam, MaintenanceInterval: time.Second}
+		if sc.Antispam == -2 {
+			settings.Antispam.Threshold = 0 // "0" cannot be told from "not set" in the scenario literal
+		}
+		if sc.AntispamRule > 0 {
+			ck, err := doif.NewFromMap(map[string]any{"op": "prefix", "field": "source_name", "values": []any{"file"}})
+			if err != nil {
+				panic(err)
+			}
+			settings.Antispam.Rules = antispam.Rules{{Name: "files", Threshold: sc.AntispamRule, DoIfChecker: ck}}
+		}
+	}
 	p := pipeline.New("verif", settings, prometheus.NewRegistry(), vplug.FatalLogger())
 	o.p = p
 	if sc.SingleProc {
@@ -554,7 +575,13 @@ func Body(sc *Scn) {
 					}
 				}
 				if st.refused != st.spec.Bad && !st.spec.Refuse {
-					o.fail("admission", nil, "%v: refused=%v but the scenario expects refused=%v", st, st.refused, st.spec.Bad)
+					if sc.Antispam != 0 || sc.AntispamRule > 0 {
+						// expectations about bans are stated in maintenance rounds per second of virtual time: they hold on
+						// timed-fair executions only (the clock never runs ahead of a runnable thread); decided in Check
+						o.timed = append(o.timed, vexplore.Finding{Clause: "admission", Features: map[string]string{}, Detail: fmt.Sprintf("%v: refused=%v but the scenario expects refused=%v", st, st.refused, st.spec.Bad)})
+					} else {
+						o.fail("admission", nil, "%v: refused=%v but the scenario expects refused=%v", st, st.refused, st.spec.Bad)
+					}
 				}
 			}
 			o.readersDone++
@@ -581,12 +608,16 @@ var ClauseProps = map[string]string{
 	"wedged": "C04", "deadlock": "C04", "livelock": "C04",
 	"capacity-exceeded": "C05", "double-handout": "C05", "double-return": "C05", "leak": "C05", "not-zero-at-idle": "C05", "out-unowned": "C05",
 	"dq-twice": "C09", "dq-missing": "C09", "giveup-report": "C09",
+	"admission": "C20",
 	"reassembly": "C15",
 }
 
 func Check(sc *Scn, x *vsched.Exec) []vexplore.Finding {
 	o := O
 	fs := append([]vexplore.Finding{}, o.findings...)
+	if x.TimedFair() {
+		fs = append(fs, o.timed...)
+	}
 	for _, f := range vexplore.DefaultFindings(x) {
 		if f.Clause == "panic" && strings.Contains(f.Detail, "harness") {
 			f.Clause = "harness"
